@@ -177,8 +177,8 @@ def extract_region(it, repo, outdir):
     if 'max_lines' in it and hi - lo > it['max_lines']:
         raise InjectError('region %s grew to %d lines (contract written for <= %d)' % (it['region'], hi - lo, it['max_lines']))
     clean = _strip_comments_keep_len(text)
-    if clean.count('{') != clean.count('}'):
-        raise InjectError('region %s is not brace balanced' % it['region'])
+    if clean.count('{') - clean.count('}') != it.get('brace_balance', 0):
+        raise InjectError('region %s: brace balance %d, expected %d' % (it['region'], clean.count('{') - clean.count('}'), it.get('brace_balance', 0)))
     loops = find_loops(clean, 0, len(clean))
     if 'expect_loops' in it and len(loops) != it['expect_loops']:
         raise InjectError('region %s has %d loops, contract written for %d' % (it['region'], len(loops), it['expect_loops']))
